@@ -59,7 +59,8 @@ _T = TypeVar("_T")
 def _paginate(items: list[_T], limit: int, offset: int) -> tuple[list[_T], bool]:
     """Slice ``items`` by ``offset``/``limit`` and report whether the limit was hit."""
     window = items[offset : offset + limit] if limit >= 0 else items[offset:]
-    limit_reached = 0 <= limit < len(items) - offset
+    # an empty page can not be followed by a next one - `next_offset` would not advance
+    limit_reached = bool(window) and 0 <= limit < len(items) - offset
     return window, limit_reached
 
 
@@ -121,12 +122,14 @@ async def list_dpts(filters: DptFilter | None = None) -> DptListResult:
     ]
     matches.sort(key=lambda dpt: (dpt.dpt_main_number or 0, dpt.dpt_sub_number or -1))
 
-    window, limit_reached = _paginate(matches, filters.limit, filters.offset)
+    # a negative offset would be taken from the end of the list
+    offset = max(filters.offset, 0)
+    window, limit_reached = _paginate(matches, filters.limit, offset)
     return DptListResult(
         dpts=[_summarize_dpt(dpt) for dpt in window],
         total_count=len(matches),
-        offset=filters.offset,
-        next_offset=filters.offset + len(window) if limit_reached else None,
+        offset=offset,
+        next_offset=offset + len(window) if limit_reached else None,
         limit_reached=limit_reached,
     )
 
